@@ -233,7 +233,7 @@ def gen_cases(tier, seed):
                 "n": int(rng.integers(3, 21)),
                 "bounds": str(rng.choice(["none", "predefined", "finite-inactive", "finite-active", "one-sided-active", "zero-upper-active", "zero-lower-active"])),
                 "constraints": str(rng.choice(["none", "none", "dict-inactive", "list-inactive", "dict-active", "list-active"])),
-                "weights": str(rng.choice(["none", "none", "y", "x", "ones", "inv-y"])),
+                "weights": str(rng.choice(["none", "none", "y", "x", "ones", "inv-y", "y-itself", "x-itself"])),  # (-itself: the callable hands back its argument object, as the shipped `lambda x, y: y` does)
                 "noise": float(rng.choice([0.0, 0.01, 0.05])),
                 "sub": int(rng.integers(1 << 31)),
             }
@@ -357,7 +357,7 @@ def _single(case, ctx):
         if ck.startswith("list"):
             cons = [cons, {"type": "ineq", "fun": lambda p: 1e6 - p[0]}]
     wk = case["weights"]
-    wfun = {"none": None, "y": lambda x_, y_: np.abs(y_) + 0.1, "x": lambda x_, y_: x_ + 0.1, "ones": lambda x_, y_: np.ones_like(x_), "inv-y": lambda x_, y_: 1.0 / (np.abs(y_) + 0.1)}[wk]
+    wfun = {"none": None, "y": lambda x_, y_: np.abs(y_) + 0.1, "x": lambda x_, y_: x_ + 0.1, "ones": lambda x_, y_: np.ones_like(x_), "inv-y": lambda x_, y_: 1.0 / (np.abs(y_) + 0.1), "y-itself": lambda x_, y_: y_, "x-itself": lambda x_, y_: x_}[wk]
     # start values: a perturbation of the true coefficients that is admissible
     p0 = [c_ * float(rng.uniform(0.7, 1.4)) + 0.05 * float(rng.standard_normal()) for c_ in coef]
     p0 = _project(p0, bounds)
@@ -375,15 +375,24 @@ def _single(case, ctx):
     dep.parameters = dict(zip(dep.parameters.keys(), p0))
     ctx.nontrivial = n >= 3 and k >= 2
     ctx.sample = {"shape": shape, "true": coef, "start": p0, "n": n, "bounds": bounds, "constraints": ck, "weights": wk}
+    x_given, y_given = x.copy(), y.copy()
+
+    def _as_supplied():
+        # the parameters are fitted to the SUPPLIED observations: the caller's arrays are the same afterwards
+        ctx.check("c14.data-as-supplied", np.array_equal(x, x_given) and np.array_equal(y, y_given), "the supplied support points / values were modified by the fit (the parameters then belong to other data than supplied)", weights=wk, x_changed=not np.array_equal(x, x_given), y_changed=not np.array_equal(y, y_given))
+
     try:
         dep.fit(x, y)
     except NotImplementedError:
+        _as_supplied()
         return
     except (RuntimeError, ValueError) as e:
+        _as_supplied()
         # curve_fit may fail to converge / reject an infeasible start: "Failed to fit" is a reported failure, not a wrong result
         ctx.count("c14.fit-failed-reported")
         ctx.notes["fit_error"] = f"{type(e).__name__}: {str(e)[:100]}"
         return
+    _as_supplied()
     ctx.sample["fitted"] = [float(v) for v in dep.parameters.values()]
 
 
